@@ -1,5 +1,6 @@
 import ErrModel.Recipe
 import ErrModel.Migrations
+import ErrModel.Accessors
 /-
   Observation streams printed by the driver (and, identically, by the harness
   from the real code).
@@ -53,6 +54,32 @@ def hopFull (tag : Nat) (e : Err) : Option Err := hop Full Full vfStub tag e
 /-- k successive hops between knowing processes -/
 def hops (k : Nat) (e : Err) : Option Err := hopsFull vfStub 2000 k e
 
+def pPair (kv : Str × Str) : String := pList [pStr kv.1, pStr kv.2]
+
+def sentinelErr (which : Nat) : Err :=
+  .leaf (sentinelIdOf which) (.errorString (if which = 0 then b!"permission denied" else if which = 1 then b!"file already exists" else b!"file does not exist"))
+
+/-- every public accessor of one error -/
+def pAcc (e : Err) : String :=
+  pList ["acc",
+    pList ["hints", pStrs (getAllHints e)],
+    pList ["details", pStrs (getAllDetails e)],
+    pList ["fhints", pStr (flattenHints e)],
+    pList ["fdetails", pStr (flattenDetails e)],
+    pList ["links", pList ((getAllIssueLinks e).map pPair)],
+    pList ["flags", pBool (hasIssueLink e), pBool (isIssueLink e), pBool (hasUnimplementedError e),
+      pBool (isUnimplementedError e), pBool (hasAssertionFailure e), pBool (isAssertionFailure e)],
+    pList ["keys", pStrs (getTelemetryKeys e)],
+    pList ["domain", pStr (getDomain e)],
+    pList ["tags", pList ((getContextTags e).map (fun t => pList (t.map pPair)))],
+    pList ["http", pNat (getHTTPCode e 599)],
+    pList ["grpc", pNat (getGrpcCode e)],
+    pList ["os", pBool (osIs Full 0 (sentinelErr 0) e), pBool (osIs Full 1 (sentinelErr 1) e),
+      pBool (osIs Full 2 (sentinelErr 2) e), pBool (isTimeout e)],
+    pList ["root", pStr (text (unwrapAll e)), pStr (unwrapAll e).ty.tstr],
+    pList ["safedet", pList ((getAllSafeDetails Full vfStub e).map (fun x =>
+      pList [pStr x.1, pTMark x.2.1, pStrs x.2.2]))]]
+
 def obsCase (e : Option Err) (refs : List (Option Err)) : String :=
   match e with
   | none => pList ["res", "(nil)", pList ["is", pList (refs.map fun r => pOB (isOpt Full none r))]]
@@ -70,6 +97,9 @@ def obsCase (e : Option Err) (refs : List (Option Err)) : String :=
       pList ["is", isVec (some e) refs],
       pList ["h1is", isVec h1 refs],
       pList ["h2is", isVec h2 refs],
+      pList ["acc0", pAcc e],
+      pList ["acc1", pOpt pAcc h1],
+      pList ["acc2", pOpt pAcc h2],
       pList ["isany", pBool (isAnyB Full e refs)],
       pList ["isanyhalf", pBool (isAnyB Full e (refs.take (refs.length / 2)))]]
 
